@@ -312,7 +312,7 @@ def oracle(ctx: vlib.Ctx, n_schemas: int, n_values: int, focus: str | None = Non
             sb = S.new_dc(max(depth - 1, 1), force_self=rng.choice([True, True, "name"]))
             root = S.new_dc(depth, root=True, base=sb.name)
         else:
-            root = S.new_dc(depth, root=True)
+            root = S.new_dc(depth, root=True, wrapped_opts=rng.random() < 0.3)
         xds = rng.sample(L.USER_DIALECTS, 2) if dialect_mode else []
         opts = 0
         if jsonkind == "orjson" and rng.random() < 0.5:
@@ -489,7 +489,9 @@ def correspondence_cases(ctx: vlib.Ctx, n_schemas: int, n_values: int):
         sysk = si % 8 if si % 2 == 0 else None
         dm = (sysk in (0, 2, 4)) if sysk is not None else rng.random() < 0.4
         S = L.Schema(rng, jsonkind, small=True, dialect_mode=dm)
-        if sysk in (0, 6):
+        if sysk == 6:
+            root = S.new_dc(rng.choice([1, 2]), root=True, wrapped_opts=True)
+        elif sysk == 0:
             root = S.new_dc(rng.choice([1, 2]), root=True, force_self="name")
         elif sysk == 2:
             root = S.new_dc(rng.choice([1, 2]), root=True, force_self=True)
